@@ -209,7 +209,9 @@ def run_check(pid, spec, args, seed, work, t0):
                         "-test.parallel", str(cfg.get("parallel", args.jobs))]
             if j.get("rapid", True) and j.get("kind") != "fuzz":
                 cmd += ["-rapid.checks", str(cfg.get("checks", 100)), "-rapid.seed", str(rapid_seed(seed, jidx, sh)),
-                        "-rapid.shrinktime", cfg.get("shrinktime", "20s"), "-rapid.failfile", failfile]
+                        "-rapid.shrinktime", cfg.get("shrinktime", "20s")]
+                if replay and replay.get("failfile_content"):
+                    cmd += ["-rapid.failfile", failfile]
             if replay:
                 if replay.get("failfile_content"):
                     with open(failfile, "w") as f:
@@ -380,9 +382,12 @@ def save_log(work, replay_dir, p, kind):
 def save_replay(replay_dir, pid, p, seed, tname, summ):
     rec = {"property": pid, "job": p.job["name"], "pkg": p.job["pkg"], "test": tname, "seed": seed,
            "shard": p.shard, "summary": summ, "cmd": p.cmd, "output_tail": tail(p.out or "", 30000)}
-    if os.path.exists(p.failfile):
-        with open(p.failfile) as f:
-            rec["failfile_content"] = f.read()
+    mf = re.search(r'-rapid\.failfile="([^"]+)"', p.out or "")
+    if mf:
+        ff = mf.group(1) if os.path.isabs(mf.group(1)) else os.path.join(p.cwd, mf.group(1))
+        if os.path.exists(ff):
+            with open(ff) as f:
+                rec["failfile_content"] = f.read()
     m = re.search(r"Failing input written to (testdata/fuzz/\S+)", p.out or "")
     if m:
         fp = os.path.join(p.cwd, m.group(1))
